@@ -10,3 +10,9 @@ TRUSTED = ['A1', 'A2', 'A5', 'A6', 'UF']
 
 def jobs(tier):
     return jobs_for('C11', MODULES, tier)
+
+
+def extra(tier, seed):
+    from fvverif.lean import lemma_status
+    ok, detail = lemma_status(['geom_le_arith', 'harm_le_geom'], rebuild=(tier == 'thorough'))
+    return [('lean lemmas harmonic <= geometric <= arithmetic (weighted, exp/log form)', ok, 'lean:' + detail)]
